@@ -311,7 +311,27 @@ def part_job(ctx, i):
     except gen.TooBig:
         return
     text = render.canonical(render.tokens(prog, rng))
-    if rng.random() < 0.12:
+    big = rng.random() < 0.06
+    if big:
+        # many lights, and a loop over them that is left early: what the loop
+        # had still to visit is discarded, and the next run starts afresh
+        n = rng.choice([18, 24, 40, 70])
+        pop = [{'label': 'L{:02d}'.format(k), 'group': 'G{}'.format(k % 2),
+                'location': 'Hall', 'kind': 'plain', 'color': [k, k, k, 2700],
+                'power': 0} for k in range(n)]
+        text = rng.choice([
+            'repeat all as zz_l begin set zz_l break end set all print {{ 1 + 2 }}',
+            'define first begin repeat all as zz_l begin on zz_l return 5 end '
+            'end print [ first ] off all print {{ 2 * 3 }}',
+            'repeat in location "Hall" as zz_l with zz_b from 0 to 100 begin '
+            'brightness zz_b set zz_l if {{ zz_b > {cut} }} break end '
+            'print {{ 4 + 4 }} on group "G1"',
+            'repeat {reps} begin repeat all as zz_l begin set zz_l break end '
+            'end print 7 set all',
+        ]).format(cut=rng.choice([0, 5, 50]), reps=rng.choice([1, 2, 3]))
+        dec = []
+        ctx.count('jobs_leaving_a_big_loop_early')
+    elif rng.random() < 0.12:
         text = rng.choice(OVERLAPS).format(
             v=rng.choice([5, 40, 2.5]),
             name=pop[0]['label'] if pop else 'Nobody')
@@ -334,6 +354,23 @@ def part_job(ctx, i):
         return                        # judged by C01/C06
     job, mon = r1.job, r1.mon
     first = repr(refmodel.stream_of(r1.log))
+    if rng.random() < 0.3:
+        # the monitored job (its program has been read, fingerprinted and
+        # instrumented) does what a job nobody looked at does
+        reset_devices(pop)
+        r0 = run_script(text, dec)
+        if not r0.budget_exhausted and not r0.stops and \
+                repr(refmodel.stream_of(r0.log)) != first:
+            ctx.violation('job:inspection-changes-run',
+                          'a job whose program was read before its first run '
+                          'produced {} event(s), an untouched job {} | {}'
+                          .format(len(refmodel.stream_of(r1.log)),
+                                  len(refmodel.stream_of(r0.log)), text[:300]),
+                          {'part': 'job', 'script': text, 'population': pop,
+                           'decisions': dec})
+            return
+        ctx.count('untouched_jobs_compared')
+        reset_devices(pop)
     steps = mon.steps
     replay = {'part': 'job', 'script': text, 'population': pop,
               'decisions': dec}
@@ -514,6 +551,15 @@ def part_queued(ctx, i):
         reset_devices(pop)
         r = run_script(text, dec, job=job, budget=20000)
         got = repr(refmodel.stream_of(r.log))
+        if not (r.stops or r.budget_exhausted or got != want) and \
+                rng.random() < 0.5:
+            # ... and once more, without anybody having looked at the job in
+            # between (the monitors of the other parts read job.program,
+            # which must not matter, but here nothing does)
+            reset_devices(pop)
+            r = run_script(text, dec, job=job, budget=20000)
+            got = repr(refmodel.stream_of(r.log))
+            ctx.count('queued_jobs_run_twice')
         if r.stops or r.budget_exhausted or got != want:
             a = refmodel.stream_of(r.log)
             ctx.violation(
